@@ -82,9 +82,20 @@ def wide_counter(arr) -> bool:
                               ("mod", "numpy.uint64"), ("mod", "numpy.intp"))
 
 
+def _scalar_fragment(w, fi):
+    """In-place whole-array arithmetic on buffers that alias one another (`out=`, views bound to locals) needs numpy's
+    aliasing semantics to be read; the rules here read the measures as written element by element."""
+    from ..core import AnalysisError
+    for e in w.events:
+        if e.kind == "call" and "out" in dict(e.kwargs or ()):
+            raise AnalysisError(f"{fi.qual}: `{e.text()[:60]}` writes its result into an existing buffer (out=): in-place "
+                                "whole-array updates of aliased buffers are outside the analysable fragment")
+
+
 def check_accuracy(rep, repo):
     fi = repo.need_function(GEN, "opf_accuracy")
     w = Walker(repo, fi, inline=inline_same_module_private(fi))
+    _scalar_fragment(w, fi)
     k = kernel(w, rep, fi)
     if not k:
         return
@@ -195,6 +206,7 @@ def check_confusion(rep, repo):
 def check_per_label(rep, repo):
     fi = repo.need_function(GEN, "opf_accuracy_per_label")
     w = Walker(repo, fi, inline=inline_same_module_private(fi))
+    _scalar_fragment(w, fi)
     k = kernel(w, rep, fi)
     if not k:
         return
